@@ -79,11 +79,12 @@ func init() {
 
 var concRealStub = map[string]string{
 	"queue.SQLiteStore incl. schema, triggers, pooled connection (database/sql), modernc SQLite": "real",
-	"disk":                               "simulated (shim VFS: writes pending until sync; kill and power-loss images; crash at a chosen disk operation of the concurrent block)",
-	"scheduler":                          "simulated: callers are real goroutines parked at a scheduling point before every statement of the instrumented SQLiteStore functions (go/ast overlay) and released one at a time by the seeded choice list; a caller waiting for the pooled connection or a mutex is recognised by its Go wait state and left out until it wakes",
-	"clock":                              "simulated, constant during the concurrent block",
-	"reference":                          "the same store driven sequentially on a fresh database (linearizability with respect to its own sequential behaviour, which W-store judges against the contract model)",
-	"memory backend, HTTP/gRPC handlers": "not in this world",
+	"disk":               "simulated (shim VFS: writes pending until sync; kill and power-loss images; crash at a chosen disk operation of the concurrent block)",
+	"scheduler":          "simulated: callers are real goroutines parked at a scheduling point before every statement of the instrumented SQLiteStore functions (go/ast overlay) and released one at a time by the seeded choice list; a caller waiting for the pooled connection or a mutex is recognised by its Go wait state and left out until it wakes",
+	"clock":              "simulated, constant during the concurrent block",
+	"reference":          "the same store driven sequentially on a fresh database (linearizability with respect to its own sequential behaviour, which W-store judges against the contract model)",
+	"memory backend":     "real, in 3 of 10 programs (not for C01): every statement of the exported MemoryStore methods is a scheduling point; a caller waiting for the store mutex is recognised as blocked",
+	"HTTP/gRPC handlers": "not in this world",
 }
 
 func init() {
@@ -91,6 +92,9 @@ func init() {
 		prof := ConcProfile{Crash: crash, Sweep: 30}
 		if prop == "C12" {
 			prof.Limits = 8
+		}
+		if prop != "C01" {
+			prof.Memory = 3 // the memory backend has nothing durable: not for C01
 		}
 		Register(&CheckSpec{
 			Prop: prop, World: "conc",
